@@ -5,7 +5,7 @@ open Atomica
 def handlers : List (String × (List String → Option String)) :=
   [ ("grid", Grid.handle), ("gridops", Grid.handleOps),
     ("estep", Engine.handleStep), ("eflush", Engine.handleFlush), ("ewf", Engine.handleWf),
-    ("estepref", Engine.handleStepRef), ("eflushref", Engine.handleFlushRef),
+    ("estepref", Engine.handleStepRef), ("eflushref", Engine.handleFlushRef), ("egroupj", Engine.handleGroupJ),
     ("interp-linear", Series.handleLinear), ("interp-previous", Series.handlePrevious), ("series-insert", Series.handleInsert),
     ("capacity", Coverage.handleCapacity), ("propcov", Coverage.handlePropcov), ("effcov", Coverage.handleEffcov),
     ("covout", Covout.handle),
@@ -23,7 +23,8 @@ def handlers : List (String × (List String → Option String)) :=
     ("c09-gate", Scenario.handleGate), ("c09-evalone", Scenario.handleEvalOne), ("c09-scen", Scenario.handleScen),
     ("rules", Rules.handle),
     ("tdve", Tables.handleTdve), ("yfac", Tables.YF.handle), ("cache", Protocol.Cache.handle),
-    ("csim", Closed.handleSim), ("csimref", Closed.handleSimRef), ("cwf", Closed.handleWf), ("cpars", Closed.handleParsRef) ]
+    ("csim", Closed.handleSim), ("csimref", Closed.handleSimRef), ("cwf", Closed.handleWf), ("cpars", Closed.handleParsRef),
+    ("cpsim", ClosedProg.handleSim), ("cpsimref", ClosedProg.handleSimRef), ("cpwf", ClosedProg.handleWf), ("cppars", ClosedProg.handleParsRef) ]
 
 /-- One request per line: `<kind> <args…>`; one canonical reply per line. -/
 def dispatch (line : String) : String :=
